@@ -76,7 +76,10 @@ def triples(rng, n):
            (2e-8, 5e-8, 2.5e-10), (0.0, 1e-9, 3e-10), (0.0, 1e-6, 1e-8), (0.0, 3.5e-12, 1e-12), (1e-7, 1.0000004e-7, 1e-13),
            # thousands of steps away from the origin: rounding must not accumulate in the grid (an extra step of length 1e-12 advances
            # an FDAE by a full model step)
-           (10.0, 12.0, 1e-3), (1000.0, 1001.0, 1e-3), (-1000.0, -999.0, 1e-3), (1e4, 10005.0, 0.05), (0.0, 200.0, 0.01)]
+           (10.0, 12.0, 1e-3), (1000.0, 1001.0, 1e-3), (-1000.0, -999.0, 1e-3), (1e4, 10005.0, 0.05), (0.0, 200.0, 0.01),
+           # epoch seconds with a step that is not representable at that magnitude: every t + h rounds the same way, an accumulated grid
+           # drifts (more steps than the buffer holds on longer spans)
+           (1.7e9, 1.7e9 + 0.25, 1e-4), (1.7e9, 1.7e9 + 0.05, 1e-5), (-1.7e9, -1.7e9 + 0.2, 1e-4)]
     hs = [0.1, 0.3, 1.0 / 3.0, 0.25, 0.01, 0.7, 0.05, 1e-3, 0.2, 0.6]
     while len(out) < n:
         h = float(rng.choice(hs))
@@ -134,10 +137,11 @@ def run(rep, tier, seed):
                     body = d if name != "fdae_solver" else d[:-1]
                     if len(body) and np.max(np.abs(body - h)) > tolh:
                         fails.append((case, f"{name}: steps are not the requested step {h!r}: min {body.min()!r} max {body.max()!r}"))
-                    if name == "fdae_solver" and tend > t0 and (d[-1] > h * (1 + 1e-8) or d[-1] <= 0):
+                    if name == "fdae_solver" and tend > t0 and (d[-1] > h * (1 + 1e-8) + tolh or d[-1] <= 0):
                         fails.append((case, f"{name}: last step {d[-1]!r} is not in (0, h]"))
                 q = (tend - t0) / h
-                near_int = abs(q - round(q)) < 1e-9 * max(1.0, abs(q))
+                # at |t| >> h the ratio itself is only defined up to the resolution of the time axis
+                near_int = abs(q - round(q)) < max(1e-9 * max(1.0, abs(q)), 8 * np.spacing(max(abs(t0), abs(tend), 1.0)) / h)
                 if name == "fdae_solver":
                     if T[-1] != tend and tend > t0:
                         fails.append((case, f"{name}: ends at {T[-1]!r}, not at tend = {tend!r}"))
